@@ -49,7 +49,7 @@ abbrev Edge := Key × Validator × Target
 inductive Mgr
   | static (edges : List Edge)
   | dynamic (level : Level) (keyTy : KeyTy) (v : Validator)
-deriving Repr
+deriving DecidableEq, Repr
 
 structure Schema where
   /-- manager name ↦ manager -/
@@ -79,6 +79,76 @@ def Schema.named (S : Schema) (lv : Level) (k : Key) : List String :=
 def lookupE (k : Key) : List Edge → Option (Validator × Target)
   | [] => none
   | (k', v, t) :: rest => if k = k' then some (v, t) else lookupE k rest
+
+/-! ### the hand-written CONTRACT (compared with the regenerated schema by `C05_route_guards` / `C05_component_gates`, and
+evaluated on the real objects by the rig's contract oracle through `drv_c05`; it does NOT depend on any Gen table, so it is
+still available when an extractor refuses the source) -/
+
+def VAtom.show : VAtom → String
+  | .nodeIsOn => "nodeIsOn" | .nodeIsOff => "nodeIsOff" | .nicEnabled => "nicEnabled" | .nicDisabled => "nicDisabled"
+  | .serviceState s => "serviceState:" ++ s | .appState s => "appState:" ++ s
+  | .folderExists => "folderExists" | .folderNotDeleted => "folderNotDeleted" | .fsFileExists => "fsFileExists"
+  | .folderFileExists => "folderFileExists" | .fileNotDeleted => "fileNotDeleted" | .groupMember => "groupMember"
+
+/-- The permission rules on each action's route (allow-all edges dropped, combined validators flattened, in route
+order). This table is the contract C11 / C12 rely on; it is compared with the regenerated schema (`C05_route_guards`). -/
+def expectedGuards (action : String) : List VAtom :=
+  let svc (s : String) : List VAtom := [.nodeIsOn, .serviceState s]
+  let app : List VAtom := [.nodeIsOn, .appState "RUNNING"]
+  let file : List VAtom := [.nodeIsOn, .folderExists, .folderNotDeleted, .folderFileExists, .fileNotDeleted]
+  let folder : List VAtom := [.nodeIsOn, .folderExists, .folderNotDeleted]
+  if action = "do-nothing" then []
+  else if action = "node-startup" then [.nodeIsOff]
+  else if action = "node-os-scan" then [.nodeIsOn, .nodeIsOn]
+  else if action ∈ ["node-service-scan", "node-service-stop", "node-service-pause", "node-service-restart",
+                    "node-service-fix"] then svc "RUNNING"
+  else if action = "node-service-start" then svc "STOPPED"
+  else if action = "node-service-resume" then svc "PAUSED"
+  else if action = "node-service-enable" then svc "DISABLED"
+  else if action ∈ ["node-application-scan", "node-application-close", "node-application-fix"] then app
+  else if action ∈ ["node-file-scan", "node-file-restore", "node-file-corrupt", "node-file-checkhash",
+                    "node-file-repair"] then file
+  else if action = "node-file-delete" then [.nodeIsOn, .fsFileExists]
+  else if action ∈ ["node-folder-scan", "node-folder-checkhash", "node-folder-repair", "node-folder-restore"] then folder
+  else if action ∈ ["host-nic-enable", "network-port-enable"] then [.nodeIsOn, .nicDisabled]
+  else if action ∈ ["host-nic-disable", "network-port-disable"] then [.nodeIsOn, .nicEnabled]
+  else [.nodeIsOn]
+
+/-- the component kinds whose ROOT manager carries permission rules of its own -/
+inductive Root | node | nic | service | application | fileSystem | folder
+  /-- two auxiliary managers that carry rules of their own: `Node._os_request_manager`, `FileSystem._delete_manager` -/
+  | nodeOs | fsDelete
+deriving DecidableEq, Repr
+
+def Root.show : Root → String
+  | .node => "node" | .nic => "nic" | .service => "service" | .application => "application"
+  | .fileSystem => "fileSystem" | .folder => "folder" | .nodeOs => "nodeOs" | .fsDelete => "fsDelete"
+
+def Root.parse : String → Option Root
+  | "node" => some .node | "nic" => some .nic | "service" => some .service | "application" => some .application
+  | "fileSystem" => some .fileSystem | "folder" => some .folder | "nodeOs" => some .nodeOs | "fsDelete" => some .fsDelete
+  | _ => none
+
+/-- COMPONENT GATES (the contract for raw routes): the rules that the edge `k` out of the root manager of ANY component of
+the given kind must carry, whatever subclass it is and whatever else the edge carries.  Every request that passes through a
+node is power-gated (`startup`: node is OFF; everything else — including keys added by subclasses such as the firewall's
+port routes — node is ON); the generic life-cycle verbs of services / applications are state-gated; NIC enable / disable;
+the file system's `folder` / `file` edges and a folder's `file` edge check existence and the deleted flag. -/
+def gate : Root → Key → List VAtom
+  | .node, k => if k = "startup" then [.nodeIsOff] else [.nodeIsOn]
+  | .nic, k => if k = "enable" then [.nicDisabled] else if k = "disable" then [.nicEnabled] else []
+  | .service, k =>
+    if k ∈ ["fix", "scan", "stop", "pause", "restart"] then [.serviceState "RUNNING"]
+    else if k = "start" then [.serviceState "STOPPED"]
+    else if k = "resume" then [.serviceState "PAUSED"]
+    else if k = "enable" then [.serviceState "DISABLED"]
+    else []
+  | .application, k => if k ∈ ["fix", "scan", "close"] then [.appState "RUNNING"] else []
+  | .fileSystem, k =>
+    if k = "folder" then [.folderExists, .folderNotDeleted] else if k = "file" then [.fsFileExists] else []
+  | .folder, k => if k = "file" then [.folderFileExists, .fileNotDeleted] else []
+  | .nodeOs, _ => [.nodeIsOn]
+  | .fsDelete, k => if k = "file" then [.fsFileExists] else if k = "folder" then [.folderExists] else []
 
 /-! ### templates -/
 
